@@ -533,3 +533,26 @@ def describe_coarse(st, cutsets):
     desc = {"n": nb, "elems": [{"k": el["k"], "e": el["e"], "to": idx[el["to"]]} for el in elems], "chars": chars,
             "sync": [idx[p] for p in sync], "bnd": bnd, "held": held, "cw": [p // 1024 for p in ends]}
     return desc, ends
+
+
+# --------------------------------------------------------------------------- size class of the HEADER
+_XNS = " ".join(f"xmlns:x{i}='urn:example:extension:number-{i}'" for i in range(1, 6))
+
+
+def header_variants():
+    """instance of model shape mA: a stream header of ~5 KiB (long from, '>' and multi-byte characters in values)"""
+    big = b"from='a>b." + _fill(4300 - 10)
+    cells = H(1, ("decl", "<?xml version='1.0' encoding='UTF-8'?>"), ("tag", f"<stream:stream {NS} {_XNS} "),
+              ("attr", big), ("mb1", b"\xc3"), ("mb2", b"\xbc"),
+              ("attr", "cher.example.org' id='" + "0123456789abcdef" * 20 + ">"), ("tag", "' version='1.0' xml:lang='en'>"))
+    cells += S(1, ("tag", FEATURES_POST)) + S(2, ("tag", STANZAS[0])) + C("</stream:stream>")
+    return [stream("mAa", cells, "stream header of ~5 KiB (4 KiB attribute value, '>' and multi-byte characters inside)")]
+
+
+def header_streams():
+    """a stream header of ~600 characters: several xmlns:* declarations, long from / to / id, 'ü' and '>' in values"""
+    hdr = (f"<stream:stream {NS} {_XNS} from='b\u00fccher.a-rather-long-server-name.example.org' "
+           f"to='juergen.m\u00fcller@a-rather-long-client-domain.example.org' id='a>b-{'0123456789abcdef' * 10}' version='1.0' xml:lang='en'>")
+    cells = H(1, ("decl", "<?xml version='1.0'?>"), ("tag", hdr)) + _st(1, FEATURES_POST) + _st(2, STANZAS[0]) + W("\n") \
+        + _st(3, STANZAS[2]) + C("</stream:stream>")
+    return [stream("h1", cells, f"stream header of {len(hdr)} characters")]
